@@ -300,6 +300,44 @@ pub fn gen_big_union(rng: &mut Rng) -> (Universe, Problem) {
     (u, p)
 }
 
+/// Wide fan-outs: more than 128 requests implied at once. Either the root requires 129..170 distinct packages, or it
+/// requires one package whose only candidate does, or three siblings (selected together) require 45..60 leaves each.
+/// Every leaf has one or two candidates and no dependencies.
+pub fn gen_wide_fanout(rng: &mut Rng) -> (Universe, Problem) {
+    let mut u = Universe::default();
+    let mut p = Problem::default();
+    let mut next_s = 0u32;
+    let mut next_name = 0u32;
+    let mut leaf = |u: &mut Universe, rng: &mut Rng| -> u32 {
+        let name = next_name; next_name += 1;
+        let k = rng.range(1, 2) as u32;
+        let cs: Vec<u32> = (0..k).map(|j| next_s + j).collect();
+        next_s += k;
+        u.pkgs.insert(name, Pkg { cands: cs.clone(), ..Default::default() });
+        for (j, &c) in cs.iter().enumerate() { u.solvs.insert(c, Solv { name, rank: j as u32, deps: Deps::Known { reqs: vec![], cons: vec![] } }); }
+        u.vsets.insert(name, VSet { name, matching: cs });
+        name
+    };
+    match rng.below(3) {
+        0 => { for _ in 0..rng.range(129, 170) { let n = leaf(&mut u, rng); p.reqs.push(Req::Single(n)); } }
+        shape => {
+            let parents = if shape == 1 { 1 } else { 3 };
+            let per = if shape == 1 { rng.range(129, 170) } else { rng.range(45, 60) };
+            let mut all: Vec<Vec<u32>> = Vec::new();
+            for _ in 0..parents { all.push((0..per).map(|_| leaf(&mut u, rng)).collect()); }
+            for leaves in all {
+                let name = next_name; next_name += 1;
+                let c = next_s; next_s += 1;
+                u.pkgs.insert(name, Pkg { cands: vec![c], ..Default::default() });
+                u.solvs.insert(c, Solv { name, rank: 0, deps: Deps::Known { reqs: leaves.iter().map(|&l| Req::Single(l)).collect(), cons: vec![] } });
+                u.vsets.insert(name, VSet { name, matching: vec![c] });
+                p.reqs.push(Req::Single(name));
+            }
+        }
+    }
+    (u, p)
+}
+
 /// A provider that looks ahead meets package-level clauses: the root requires `p`; `p=0` requires `s1` .. `sk` (one
 /// candidate each, so they are selected and encoded together); some of them require `z`, whose *second* candidate depends
 /// on `c` (so a look-ahead of `sort_candidates` requests the candidates of `c` although the selected `z=0` never asks for
@@ -350,8 +388,10 @@ pub fn gen_lookahead_excl(rng: &mut Rng) -> (Universe, Problem) {
 /// C10/C11: one solve with an asynchronous provider and a manual single-threaded executor.
 pub fn gen_async_case(rng: &mut Rng, conflict_free: bool) -> Vec<String> {
     let kind = if conflict_free { Kind::ConflictFree } else { *rng.pick(&[Kind::General, Kind::Tight, Kind::Hints, Kind::Soft, Kind::Lazy, Kind::ConflictFree]) };
-    let lookahead = !conflict_free && rng.chance(1, 15);
-    let g = if lookahead { let (u, p) = gen_lookahead_excl(rng); gen::Generated { u, p } }
+    let wide = !conflict_free && rng.chance(1, 150);
+    let lookahead = !wide && !conflict_free && rng.chance(1, 15);
+    let g = if wide { let (u, p) = gen_wide_fanout(rng); gen::Generated { u, p } }
+        else if lookahead { let (u, p) = gen_lookahead_excl(rng); gen::Generated { u, p } }
         else if !conflict_free && rng.chance(1, 30) { let (u, p) = gen_big_union(rng); gen::Generated { u, p } } else { gen::generate(rng, kind) };
     let mut lines = g.u.to_lines();
     lines.push(g.p.to_line());
